@@ -288,6 +288,103 @@ theorem none_of_fixed_correct (b : Nat → Bool) (n : Nat) : noneOfFixed b n = !
     · have := key.1 hnf i hi; rw [hbi] at this; exact Bool.noConfusion this
 
 
+/-! ## issymmetric, isequal -/
+
+/-- inner loop of `issymmetric`: state (issym, broken) -/
+theorem isSym_inner (viol : Nat → Bool) (s : Bool) (m : Nat) :
+    (List.range m).foldl (fun (st : Bool × Bool) j => if st.2 then st else if viol j then (false, true) else st) (s, false)
+      = (s && decide (∀ j < m, viol j = false), decide (∃ j < m, viol j = true)) := by
+  induction m with
+  | zero => simp
+  | succ m ih =>
+    rw [List.range_succ, List.foldl_append, ih]
+    simp only [List.foldl_cons, List.foldl_nil]
+    by_cases h : ∃ j < m, viol j = true
+    · obtain ⟨j, hj, hv⟩ := h
+      have h1 : (∃ j < m, viol j = true) := ⟨j, hj, hv⟩
+      have h2 : (∃ j < m + 1, viol j = true) := ⟨j, by omega, hv⟩
+      have h3 : ¬ ∀ j < m, viol j = false := fun hh => by rw [hh j hj] at hv; exact Bool.false_ne_true hv
+      have h4 : ¬ ∀ j < m + 1, viol j = false := fun hh => by rw [hh j (by omega)] at hv; exact Bool.false_ne_true hv
+      simp only [decide_eq_true h1, decide_eq_true h2, decide_eq_false h3, decide_eq_false h4]
+      simp
+    · have h3 : ∀ j < m, viol j = false := by
+        intro j hj
+        cases hv : viol j
+        · rfl
+        · exact absurd ⟨j, hj, hv⟩ h
+      cases hm : viol m
+      · have h2 : ¬ ∃ j < m + 1, viol j = true := by
+          rintro ⟨j, hj, hv⟩
+          by_cases hjm : j = m
+          · subst hjm; rw [hm] at hv; exact Bool.false_ne_true hv
+          · exact h ⟨j, by omega, hv⟩
+        have h4 : ∀ j < m + 1, viol j = false := by
+          intro j hj
+          by_cases hjm : j = m
+          · subst hjm; exact hm
+          · exact h3 j (by omega)
+        simp only [decide_eq_false h, decide_eq_false h2, decide_eq_true h3, decide_eq_true h4]
+        simp
+      · have h2 : ∃ j < m + 1, viol j = true := ⟨m, by omega, hm⟩
+        have h4 : ¬ ∀ j < m + 1, viol j = false := fun hh => by rw [hh m (by omega)] at hm; exact Bool.false_ne_true hm
+        simp only [decide_eq_false h, decide_eq_true h2, decide_eq_true h3, decide_eq_false h4]
+        simp
+
+/-- **issymmetric** (non-evaluating overload): true iff no pair `(i*M+j, j*M+i)` violates the tolerance — the `break`
+    leaves only the inner loop, but `_issym` is never set back to true -/
+theorem isSymmetric_iff (viol : Nat → Nat → Bool) (M : Nat) :
+    isSymmetric viol M = true ↔ ∀ i < M, ∀ j < M, viol (i * M + j) (j * M + i) = false := by
+  unfold isSymmetric
+  have key : ∀ m, (List.range m).foldl (fun s i =>
+      ((List.range M).foldl (fun (st : Bool × Bool) j => if st.2 then st else if viol (i * M + j) (j * M + i) then (false, true) else st) (s, false)).1) true
+      = decide (∀ i < m, ∀ j < M, viol (i * M + j) (j * M + i) = false) := by
+    intro m
+    induction m with
+    | zero => simp
+    | succ m ih =>
+      rw [List.range_succ, List.foldl_append, ih]
+      simp only [List.foldl_cons, List.foldl_nil]
+      rw [isSym_inner (fun j => viol (m * M + j) (j * M + m))]
+      simp only []
+      by_cases h1 : ∀ i < m, ∀ j < M, viol (i * M + j) (j * M + i) = false
+      · by_cases h2 : ∀ j < M, viol (m * M + j) (j * M + m) = false
+        · have : ∀ i < m + 1, ∀ j < M, viol (i * M + j) (j * M + i) = false := by
+            intro i hi j hj
+            by_cases him : i = m
+            · subst him; exact h2 j hj
+            · exact h1 i (by omega) j hj
+          simp only [decide_eq_true h1, decide_eq_true h2, decide_eq_true this]
+          simp
+        · have : ¬ ∀ i < m + 1, ∀ j < M, viol (i * M + j) (j * M + i) = false := fun hh => h2 (hh m (by omega))
+          simp only [decide_eq_true h1, decide_eq_false h2, decide_eq_false this]
+          simp
+      · have : ¬ ∀ i < m + 1, ∀ j < M, viol (i * M + j) (j * M + i) = false := fun hh => h1 (fun i hi => hh i (by omega))
+        simp only [decide_eq_false h1, decide_eq_false this]
+        simp
+  rw [key M]
+  simp
+
+/-- `isequal(a,b,Tol)` = `all_of(abs(a - b) <= Tol)`; for integral element types `Tol` is converted to 0 -/
+def isEqualInt (a b : Nat → Int) (n : Nat) : Bool := allOf (fun i => decide ((a i - b i).natAbs ≤ 0)) n
+/-- the form before commit 81c67dd (`<`) -/
+def isEqualIntOld (a b : Nat → Int) (n : Nat) : Bool := allOf (fun i => decide ((a i - b i).natAbs < 0)) n
+
+/-- **isequal** on integer tensors: true iff the tensors agree element by element -/
+theorem isEqualInt_iff (a b : Nat → Int) (n : Nat) : isEqualInt a b n = true ↔ ∀ i < n, a i = b i := by
+  unfold isEqualInt
+  rw [allOf_iff]
+  constructor
+  · intro h i hi
+    have := h i hi
+    simp at this
+    omega
+  · intro h i hi
+    simp [h i hi]
+
+/-- the pre-repair comparison was false for every non-empty pair of tensors, equal ones included -/
+theorem isEqualIntOld_counterexample : isEqualIntOld (fun _ => 7) (fun _ => 7) 1 = false := by decide
+
+
 /-! ## determinants -/
 
 /-- the row-major flat array `a` of an `n × n` matrix as a `Matrix` -/
